@@ -115,6 +115,10 @@ def showset(s):
 # ------------------------------------------------------------------------------------------------
 # the implementation side
 
+Q_CONTAINERS = ('list', 'column', 'tuple', 'scalars', 'degrees', 'strided', 'numpy-scalars')
+_q_counter = [0]
+
+
 def hp_():
     import healpy
     return healpy
@@ -192,12 +196,39 @@ def apply_item(r, it, tmp):
         if k == 'Q':
             qs = list(it[1])
             theta, phi = hp.pix2ang(2 ** m, np.array(qs), nest=True)
-            ra = np.append(phi, np.nan)
-            dec = np.append(np.pi / 2 - theta, np.nan)
+            ra0, dec0 = phi, np.pi / 2 - theta
+            # positions that are in no pixel: every combination of a non-finite coordinate with a good one
+            bad = [(np.nan, np.nan), (np.inf, dec0[0]), (-np.inf, dec0[0]), (ra0[0], np.inf), (ra0[0], -np.inf),
+                   (np.nan, dec0[0]), (ra0[0], np.nan), (np.inf, np.nan)]
+            ra = np.append(ra0, [b[0] for b in bad])
+            dec = np.append(dec0, [b[1] for b in bad])
             ans = r.sky_within(ra, dec)
-            if bool(ans[-1]):
-                return r, 'B:nan-position-inside', None
-            return r, 'B:' + ''.join('1' if x else '0' for x in ans[:-1]), None
+            n = len(qs)
+            for j, b in enumerate(bad):
+                if bool(ans[n + j]):
+                    return r, 'B:position(ra=%r,dec=%r)-is-in-no-pixel-but-answered-inside' % (float(b[0]), float(b[1])), None
+            text = 'B:' + ''.join('1' if x else '0' for x in ans[:n])
+            # the same finite positions handed over in another container / unit: the answers may not depend on it
+            _q_counter[0] += 1
+            kind = Q_CONTAINERS[_q_counter[0] % len(Q_CONTAINERS)]
+            if kind == 'list':
+                alt = r.sky_within(list(map(float, ra0)), list(map(float, dec0)))
+            elif kind == 'tuple':
+                alt = r.sky_within(tuple(ra0), tuple(dec0))
+            elif kind == 'column':
+                alt = r.sky_within(ra0.reshape(-1, 1), dec0.reshape(-1, 1))
+            elif kind == 'scalars':
+                alt = [bool(r.sky_within(float(a), float(b))[0]) for a, b in zip(ra0, dec0)]
+            elif kind == 'numpy-scalars':
+                alt = [bool(r.sky_within(np.float64(a), np.float64(b))[0]) for a, b in zip(ra0, dec0)]
+            elif kind == 'degrees':
+                alt = r.sky_within(np.degrees(ra0), np.degrees(dec0), degin=True)
+            else:   # 'strided': non-contiguous views
+                alt = r.sky_within(np.repeat(ra0, 2)[::2], np.repeat(dec0, 2)[::2])
+            alt_text = 'B:' + ''.join('1' if x else '0' for x in np.asarray(alt).ravel())
+            if alt_text != text:
+                return r, '%s-but-%s-when-the-positions-are-passed-as-%s' % (text, alt_text, kind), None
+            return r, text, None
         if k == 'P':
             if tmp is None:
                 return pickle.loads(pickle.dumps(r, protocol=2)), '-', None
@@ -1236,6 +1267,26 @@ print('RESULT ' + json.dumps(dict(cases=out, probes=probes, optimize=sys.flags.o
 """
 
 
+def scalar_pixel_probe(ctx):
+    """add_pixels documents `pix : int or iterable`: a single pixel number must act like a one-element list"""
+    from AegeanTools.regions import Region
+    for val, name in ((5, 'int'), (np.int64(5), 'numpy.int64')):
+        case = dict(m=3, call='Region(3).add_pixels(%s 5, 3)' % name)
+        try:
+            r = Region(3)
+            r.add_pixels(val, 3)
+            r._renorm()
+            ok = state_str(r) == 'm3 c0 1: 2: 3:5'
+            detail = 'add_pixels(5, 3) left %s' % state_str(r)
+        except Exception as e:
+            ok, detail = False, 'add_pixels(%s 5, 3) raised %s: %s (the docstring allows "int or iterable")' % (name, type(e).__name__, e)
+        if not ok:
+            ctx.fail('spec', case, detail, dict(site='regions.Region.add_pixels',
+                                                what='raises' if 'raised' in detail else 'covered-set', scalar_pixel=True))
+            break
+        ctx.count('scalar pixel probe')
+
+
 def optimize_cases(rng):
     hs = []
     for m, gap in ((3, 1), (4, 2), (4, -1), (5, 3), (3, -2)):
@@ -1309,6 +1360,10 @@ CORPUS = [
     dict(m=1, items=[['N', 1, [3]], ['D'], ['Q', [3, 4]], ['G']]),
     # a query between two additions, quads completing across the query
     dict(m=3, items=[['N', 3, [0, 1, 2]], ['Q', [3]], ['N', 3, [3]], ['G'], ['D'], ['P'], ['G']]),
+    # the whole sky: a position that is in no pixel (NaN, +-inf in either coordinate) must still be outside
+    dict(m=1, items=[['N', 1, list(range(48))], ['Q', [0, 17, 47]], ['G']]),
+    dict(m=2, items=[['N', 2, list(range(192))], ['Q', [5, 100]], ['D']]),
+    dict(m=3, items=[['N', 3, list(range(768))], ['Q', [700]]]),
     # query, count-preserving change of members, query again
     dict(m=2, items=[['N', 2, [1, 2]], ['Q', [1, 2, 3]], ['X', {'m': 2, 'build': [['N', 2, [2, 3]]]}], ['Q', [1, 2, 3]], ['D']]),
     # operands of other depths for without/intersect/symdiff: refused, region unchanged
@@ -1372,6 +1427,7 @@ def run(ctx):
     large_slice(ctx, found, tmp)
     debug_slice(ctx, found, tmp)
     optimize_slice(ctx, found)
+    scalar_pixel_probe(ctx)          # last: its VIOLATION (pending fix C08-04) must not hide any other
     ctx.extra['spec_failure_kinds'] = {'/'.join(str(x) for x in k): v for k, v in found.kinds.items()}
 
 
@@ -1408,6 +1464,9 @@ def replay(ctx, rec):
             ctx.fail('spec', c, bad, dict(site='MIMAS.combine_regions', what='order-of-construction',
                                           stages='+'.join(k for k in STAGES if c['container'].get(k))))
         ctx.case(c)
+        return
+    if 'call' in c:
+        scalar_pixel_probe(ctx)
         return
     if c.get('env') == 'python -O':
         if 'probe' in c:
